@@ -65,8 +65,10 @@ enum Via {
     Add,
     With,
     Mixed,
+    /// through the channel that `Response::new` takes as its last argument
+    Channel,
 }
-const VIAS: [Via; 4] = [Via::Ctor, Via::Add, Via::With, Via::Mixed];
+const VIAS: [Via; 5] = [Via::Ctor, Via::Add, Via::With, Via::Mixed, Via::Channel];
 
 #[derive(Clone, Debug)]
 struct Config {
@@ -86,8 +88,8 @@ fn n_lists(tier: Tier) -> u64 {
 
 fn decode(idx: u64, tier: Tier) -> Config {
     let a = atoms().len() as u64;
-    let via = VIAS[(idx % 4) as usize];
-    let mut i = idx / 4;
+    let via = VIAS[(idx % 5) as usize];
+    let mut i = idx / 5;
     let mut k = 0u32;
     loop {
         let n = a.pow(k);
@@ -153,6 +155,14 @@ fn judge(cfg: &Config) -> Result<String, (String, String)> {
                 r = r.with_header(hdr(p));
             }
             r
+        }
+        Via::Channel => {
+            let (tx, rx) = std::sync::mpsc::channel();
+            for p in &supplied {
+                let _ = tx.send(hdr(p));
+            }
+            drop(tx);
+            Response::new(StatusCode(200), vec![], Cursor::new(data.clone()), Some(5), Some(rx))
         }
         Via::Mixed => {
             let k = (supplied.len() + 1) / 2;
@@ -359,6 +369,96 @@ fn constructors() -> Result<u64, (String, String)> {
     Ok(n)
 }
 
+/// IMF-fixdate of a Unix time, computed here from first principles (days-to-civil), so that
+/// the Date header is compared with something that shares no code with the library.
+pub fn imf_fixdate(secs: u64) -> String {
+    let days = (secs / 86400) as i64;
+    let rem = secs % 86400;
+    let (h, mi, s) = (rem / 3600, rem % 3600 / 60, rem % 60);
+    // civil from days (proleptic Gregorian), 1970-01-01 = day 0, a Thursday
+    let z = days + 719468;
+    let era = z.div_euclid(146097);
+    let doe = z.rem_euclid(146097);
+    let yoe = (doe - doe / 1460 + doe / 36524 - doe / 146096) / 365;
+    let y = yoe + era * 400;
+    let doy = doe - (365 * yoe + yoe / 4 - yoe / 100);
+    let mp = (5 * doy + 2) / 153;
+    let d = doy - (153 * mp + 2) / 5 + 1;
+    let m = if mp < 10 { mp + 3 } else { mp - 9 };
+    let y = if m <= 2 { y + 1 } else { y };
+    let wd = ["Thu", "Fri", "Sat", "Sun", "Mon", "Tue", "Wed"][(days.rem_euclid(7)) as usize];
+    let mn = ["Jan", "Feb", "Mar", "Apr", "May", "Jun", "Jul", "Aug", "Sep", "Oct", "Nov", "Dec"][(m - 1) as usize];
+    format!("{}, {:02} {} {:04} {:02}:{:02}:{:02} GMT", wd, d, mn, y, h, mi, s)
+}
+
+fn unix_now() -> u64 {
+    SystemTime::now().duration_since(SystemTime::UNIX_EPOCH).map(|d| d.as_secs()).unwrap_or(0)
+}
+
+fn printed_date() -> Result<String, (String, String)> {
+    let r = Response::from_string("x");
+    let mut out = Vec::new();
+    r.raw_print(&mut out, HTTPVersion(1, 1), &[], false, None).map_err(|e| ("io-error".to_string(), e.to_string()))?;
+    let m = crate::httpparse::parse_one(&out, 0, false).map_err(|e| ("malformed".to_string(), e.what))?;
+    let ds: Vec<&(String, String)> = m.headers.iter().filter(|(n, _)| n.eq_ignore_ascii_case("date")).collect();
+    if ds.len() != 1 {
+        return Err(("date".into(), format!("{} Date headers", ds.len())));
+    }
+    Ok(ds[0].1.clone())
+}
+
+/// The Date header over the calendar and over time: the wall clock the library reads (hook
+/// H6) is moved to chosen instants and the header is compared with `imf_fixdate`.
+///   * one instant on every day from 2024-01-01 to 2029-01-01 (every day of month, month,
+///     weekday, two leap days), and around 2000-02-29, 2038-01-19 03:14:08, 2100-02-28/03-01,
+///     9999-12-31;
+///   * sequences on ONE thread that step over second, minute, hour, day, month and year
+///     boundaries by 1 s, 3 s, 59 s, 61 s, 1 h, 1 day: every header must show its own instant.
+fn dates() -> Result<u64, (String, String)> {
+    use tiny_http::verif_rt::time::set_wall_offset_secs;
+    let mut n = 0u64;
+    let check_at = |target: u64, what: &str| -> Result<(), (String, String)> {
+        let now = unix_now();
+        set_wall_offset_secs(target as i64 - now as i64);
+        let got = printed_date();
+        set_wall_offset_secs(0);
+        let got = got?;
+        // the real clock may have ticked once between setting the offset and printing
+        let ok = (0..=2).any(|d| got == imf_fixdate(target + d));
+        if !ok {
+            return Err(("date".into(), format!("{}: with the clock at `{}` the Date header is `{}`", what, imf_fixdate(target), got)));
+        }
+        Ok(())
+    };
+    let day0 = 19723u64; // 2024-01-01
+    for d in 0..=1827u64 {
+        check_at((day0 + d) * 86400 + (d * 7919) % 86400, "calendar sweep")?;
+        n += 1;
+    }
+    for t in [951782400u64 + 43200, 951868799, 2147483647, 2147483648, 2147483649, 4107456000 - 1, 4107456000, 4107542400, 253402300799 - 5] {
+        check_at(t, "special instants")?;
+        n += 1;
+    }
+    // sequences on this thread across boundaries
+    let starts = [
+        1798761599u64 - 1,  // 2026-12-31 23:59:58
+        1772323199 - 1,     // 2026-02-28 23:59:58
+        1835395199 - 1,     // 2028-02-28 23:59:58 (leap year)
+        1790553599 - 1,     // 2026-09-27 23:59:58 (day boundary)
+        1790510399 - 1,     // an hour boundary
+        1790510459 - 1,     // a minute boundary
+    ];
+    for s0 in starts {
+        let mut t = s0;
+        for step in [0u64, 1, 1, 1, 3, 55, 59, 60, 61, 3540, 3600, 86399, 86400, 1, 59, 2_678_400, 31_536_000] {
+            t += step;
+            check_at(t, &format!("sequence from {} stepping {}", imf_fixdate(s0), step))?;
+            n += 1;
+        }
+    }
+    Ok(n)
+}
+
 fn run_cfg(cfg: &Config, acc: &mut Acc) {
     acc.evals += 1;
     let at = atoms();
@@ -388,13 +488,13 @@ impl Check for C19 {
         "exploration"
     }
     fn n_items(&self, tier: Tier) -> u64 {
-        n_lists(tier) * 4 + 1
+        n_lists(tier) * 5 + 1
     }
     fn chunk(&self, _tier: Tier) -> u64 {
         2_000
     }
     fn run_item(&self, idx: u64, tier: Tier, acc: &mut Acc) {
-        if idx == n_lists(tier) * 4 {
+        if idx == n_lists(tier) * 5 {
             match constructors() {
                 Ok(n) => {
                     acc.evals += n;
@@ -403,14 +503,27 @@ impl Check for C19 {
                 }
                 Err((k, d)) => acc.violation(&k, d, json!({"constructors": true})),
             }
+            match dates() {
+                Ok(n) => {
+                    acc.evals += n;
+                    acc.nontrivial += n;
+                    acc.count("date_instants", n);
+                }
+                Err((k, d)) => acc.violation(&format!("{}:calendar", k), d, json!({"constructors": true})),
+            }
             return;
         }
-        run_cfg(&decode(idx, tier), acc);
+        let cfg = decode(idx, tier);
+        if matches!(cfg.via, Via::Channel) && cfg.list.len() >= max_len(tier) && tier == Tier::Quick {
+            // the channel entry point: lists up to one less than the maximal length in the quick tier
+            return;
+        }
+        run_cfg(&cfg, acc);
     }
     fn rule(&self, tier: Tier) -> String {
         format!(
-            "1000 application headers through each entry point (order and multiplicity), from_string of 1 MiB + 1; all header lists of length 0..{} over {} atoms (Connection, Trailer, Transfer-Encoding, Upgrade, Content-Length valid/invalid, Content-Type x4, Date, Server, X-A x3, X-B; canonical/lower/upper case names) x 4 ways of supplying them (constructor, add_header, with_header, mixed) = {} responses, printed and compared with the reference header policy; plus the constructor cases (from_string ASCII/2-byte/4-byte UTF-8/70000 bytes, from_data, from_file 0/5/70000 bytes, empty, with_data); non-trivial = non-empty list",
-            max_len(tier), atoms().len(), n_lists(tier) * 4
+            "the Date header with the wall clock (hook H6) moved to one instant on every day of 2024-2028, to 2000-02-29 / 2038-01-19 / 2100-03-01 / 9999-12-31, and stepped on one thread over second, minute, hour, day, month and year boundaries (compared with an IMF-fixdate computed from first principles); entry points: constructor list, add_header, with_header, a mix, and the channel argument of Response::new (quick: lists shorter than the maximal length); 1000 application headers through each entry point (order and multiplicity), from_string of 1 MiB + 1; all header lists of length 0..{} over {} atoms (Connection, Trailer, Transfer-Encoding, Upgrade, Content-Length valid/invalid, Content-Type x4, Date, Server, X-A x3, X-B; canonical/lower/upper case names) x 4 ways of supplying them (constructor, add_header, with_header, mixed) = {} responses, printed and compared with the reference header policy; plus the constructor cases (from_string ASCII/2-byte/4-byte UTF-8/70000 bytes, from_data, from_file 0/5/70000 bytes, empty, with_data); non-trivial = non-empty list",
+            max_len(tier), atoms().len(), n_lists(tier) * 5
         )
     }
     fn assumptions(&self) -> Vec<String> {
@@ -418,6 +531,9 @@ impl Check for C19 {
     }
     fn replay(&self, replay: &Value, acc: &mut Acc) {
         if replay["constructors"].as_bool() == Some(true) {
+            if let Err((k, d)) = dates() {
+                acc.violation(&format!("{}:calendar", k), d, replay.clone());
+            }
             if let Err((k, d)) = constructors() {
                 acc.violation(&k, d, replay.clone());
             }
@@ -428,6 +544,7 @@ impl Check for C19 {
             Some("Add") => Via::Add,
             Some("With") => Via::With,
             Some("Mixed") => Via::Mixed,
+            Some("Channel") => Via::Channel,
             _ => Via::Ctor,
         };
         run_cfg(&Config { list, via }, acc);
